@@ -264,8 +264,121 @@ func verifHavocPools(on bool)                 {}
 func verifPoolInv(roots ...interface{})       {}
 func verifPooledCount() int                   { return 0 }
 func verifPermMaps(on bool)                   {}
-func verifFreeze(x interface{}, label string) {}
-func verifUnfreeze()                          {}
+
+// native twin of the frame monitor: a deep dump of the frozen value is taken and compared again at
+// verifUnfreeze; a net change is recorded as the failed label "frame:<label>".
+type verifFrozen struct {
+	x     interface{}
+	label string
+	dump  string
+}
+
+var verifFrozenList []verifFrozen
+
+func verifFreeze(x interface{}, label string) {
+	verifFrozenList = append(verifFrozenList, verifFrozen{x, label, verifDeepDump(x)})
+}
+
+func verifUnfreeze() {
+	for _, f := range verifFrozenList {
+		if verifDeepDump(f.x) != f.dump {
+			verifState.failed = append(verifState.failed, "frame:"+f.label)
+		}
+	}
+	verifFrozenList = nil
+}
+
+func verifDeepDump(x interface{}) string {
+	var b strings.Builder
+	seen := map[uintptr]bool{}
+	var walk func(v reflect.Value, depth int)
+	walk = func(v reflect.Value, depth int) {
+		if !v.IsValid() {
+			b.WriteString("<nil>")
+			return
+		}
+		if depth > 40 {
+			b.WriteString("<deep>")
+			return
+		}
+		switch v.Kind() {
+		case reflect.Ptr:
+			if v.IsNil() {
+				b.WriteString("nil")
+				return
+			}
+			if seen[v.Pointer()] {
+				b.WriteString("<seen>")
+				return
+			}
+			seen[v.Pointer()] = true
+			b.WriteString("&")
+			walk(v.Elem(), depth+1)
+		case reflect.Interface:
+			if v.IsNil() {
+				b.WriteString("nil")
+				return
+			}
+			b.WriteString(v.Elem().Type().String() + ":")
+			walk(v.Elem(), depth+1)
+		case reflect.Struct:
+			b.WriteString("{")
+			for i := 0; i < v.NumField(); i++ {
+				b.WriteString(v.Type().Field(i).Name + "=")
+				walk(v.Field(i), depth+1)
+				b.WriteString(";")
+			}
+			b.WriteString("}")
+		case reflect.Slice, reflect.Array:
+			if v.Kind() == reflect.Slice && v.IsNil() {
+				b.WriteString("nil[]")
+				return
+			}
+			b.WriteString("[")
+			for i := 0; i < v.Len(); i++ {
+				walk(v.Index(i), depth+1)
+				b.WriteString(",")
+			}
+			b.WriteString("]")
+		case reflect.Map:
+			if v.IsNil() {
+				b.WriteString("nilmap")
+				return
+			}
+			keys := v.MapKeys()
+			ks := make([]string, len(keys))
+			byKey := map[string]reflect.Value{}
+			for i, k := range keys {
+				ks[i] = fmt.Sprintf("%v", k)
+				byKey[ks[i]] = v.MapIndex(k)
+			}
+			sort.Strings(ks)
+			b.WriteString("map{")
+			for _, k := range ks {
+				b.WriteString(k + ":")
+				walk(byKey[k], depth+1)
+				b.WriteString(",")
+			}
+			b.WriteString("}")
+		case reflect.Func, reflect.Chan, reflect.UnsafePointer:
+			b.WriteString("<opaque>")
+		case reflect.String:
+			b.WriteString(strconv.Quote(v.String()))
+		case reflect.Bool:
+			b.WriteString(strconv.FormatBool(v.Bool()))
+		case reflect.Int, reflect.Int8, reflect.Int16, reflect.Int32, reflect.Int64:
+			b.WriteString(strconv.FormatInt(v.Int(), 10))
+		case reflect.Uint, reflect.Uint8, reflect.Uint16, reflect.Uint32, reflect.Uint64, reflect.Uintptr:
+			b.WriteString(strconv.FormatUint(v.Uint(), 10))
+		case reflect.Float32, reflect.Float64:
+			b.WriteString(strconv.FormatUint(math.Float64bits(v.Float()), 16))
+		default:
+			b.WriteString("<?>")
+		}
+	}
+	walk(reflect.ValueOf(x), 0)
+	return b.String()
+}
 
 var verifWG sync.WaitGroup
 
